@@ -228,6 +228,55 @@ def gen_udp_gate(rng, n):
     return out
 
 
+def _records(rng, n, sizes):
+    ds = [rand_bytes(rng, rng.choice(sizes)) for _ in range(n)]
+    return ds, b"".join(len(d).to_bytes(2, "big") + d for d in ds)
+
+
+def gen_udp_real(rng, thorough):
+    """the UDP side is a REAL connected *net.UDPConn (loopback): sendmmsg batch-writer path.  Bursts of exactly
+    1 / 31 / 32 / 33 / 64 / 65 / 100 records arriving in ONE tunnel read, and the same bursts split over reads"""
+    out = []
+    for n in [1, 31, 32, 33, 64, 65, 100] + ([2, 34, 63, 96, 97, 128, 129] if thorough else []):
+        ds, s = _records(rng, n, [1, 2, 3, 17, 40])
+        variants = [[], rand_cuts(rng, len(s)), [len(s) // 2 + 1], [rng.randrange(1, len(s) + 1)]]
+        if not thorough:
+            variants = [variants[0], variants[rng.randrange(1, 4)]]
+        for cuts in variants:
+            end = rng.choice([0, 0, 1])
+            out.append({"mode": "udpreal", "tunnel": {"data": s.hex(), "cuts": cuts, "end": end,
+                                                      "wd": rng.random() < 0.3, "wlimit": -1, "gate": -1, "wrap": 0}})
+    # a burst followed by a truncated record, and one with big datagrams
+    ds, s = _records(rng, 40, [5, 9])
+    out.append({"mode": "udpreal", "tunnel": {"data": (s + b"\x00\x09abc").hex(), "cuts": [], "end": 0, "wd": False,
+                                              "wlimit": -1, "gate": -1, "wrap": 0}})
+    ds, s = _records(rng, 36, [1200, 1400])
+    out.append({"mode": "udpreal", "tunnel": {"data": s.hex(), "cuts": [], "end": 0, "wd": True, "wlimit": -1, "gate": -1,
+                                              "wrap": 0}})
+    return out
+
+
+def gen_vconn(rng, n):
+    """the UDP side is the REAL mapping.UDPVirtualConn over a slow (gated) socket: the relay refills / compacts its
+    re-assembly buffer while datagrams are still queued for sending"""
+    out = []
+    for i in range(n):
+        k = rng.choice([2, 3, 5, 12, 40, 70])
+        ds, s = _records(rng, k, [1, 8, 8, 30, 300])
+        mode = i % 4
+        if mode == 0:          # one record per read: every refill lands on the previous datagram's bytes
+            cuts = [2 + len(d) for d in ds]
+        elif mode == 1:        # reads end inside records: compaction moves the partial record over delivered ones
+            cuts = [rng.randrange(1, 12) for _ in range(len(s))]
+        elif mode == 2:
+            cuts = [2 + len(ds[0]), 100000]
+        else:
+            cuts = rand_cuts(rng, len(s))
+        out.append({"mode": "vconn", "tunnel": {"data": s.hex(), "cuts": cuts, "end": rng.choice([0, 0, 1]),
+                                                "wd": rng.random() < 0.3, "wlimit": -1, "gate": -1, "wrap": 0}})
+    return out
+
+
 def corpus():
     d = os.path.join(vlib.VERIF, "corpus", "C12")
     out = []
@@ -254,10 +303,10 @@ def n_reads(ln, cuts, cap):
     return n
 
 
-def deframe_value(stream_hex, t, wfail, o):
+def deframe_value(stream_hex, t, wfail, o, batch_path=False):
     return [0, bytes.fromhex(stream_hex), list(t.get("cuts") or []), t.get("end", 0), bool(t.get("wd")),
             None if wfail is None or wfail < 0 else [wfail],
-            [bytes.fromhex(x) for x in o["delivered"]], o["recv_err"], o["recv"]]
+            [bytes.fromhex(x) for x in o["delivered"]], o["recv_err"], o["recv"], batch_path]
 
 
 def encode_value(dgrams, o, uend):
@@ -301,6 +350,11 @@ def model_values(c, o, rng):
         vals.append(("deframe", deframe_value(c["tunnel"]["data"], c["tunnel"], c.get("uwfail", -1), u)))
     elif c["mode"] == "tcp":
         vals.append(("tcp", tcp_value(c, o, rng)))
+    elif c["mode"] in ("udpreal", "vconn"):
+        r = o.get("r") or {}
+        if r.get("returned") and not r.get("skipped"):
+            vals.append(("deframe-" + c["mode"], deframe_value(c["tunnel"]["data"], c["tunnel"], None, r,
+                                                               batch_path=(c["mode"] == "udpreal"))))
     return vals
 
 
@@ -310,8 +364,9 @@ def describe(c):
     if c["mode"] == "rt":
         return "rt dgram sizes %s cut=%s cuts=%s end=%s wd=%s" % ([len(x) // 2 for x in c["dgrams"]][:12], c.get("cut"),
                                                                  (c["tunnel"].get("cuts") or [])[:8], c["tunnel"].get("end"), c["tunnel"].get("wd"))
-    if c["mode"] == "udp":
-        return "udp tunnel=%s cuts=%s" % (c["tunnel"]["data"][:60], (c["tunnel"].get("cuts") or [])[:8])
+    if c["mode"] in ("udp", "udpreal", "vconn"):
+        return "%s tunnel=%s(%d bytes) cuts=%s end=%s wd=%s" % (c["mode"], c["tunnel"]["data"][:60], len(c["tunnel"]["data"]) // 2,
+                                                             (c["tunnel"].get("cuts") or [])[:8], c["tunnel"].get("end"), c["tunnel"].get("wd"))
     return "tcp |A|=%d |B|=%d gateA=%s gateB=%s wlimitA=%s wlimitB=%s wrapA=%s wrapB=%s" % (
         len(c["a"]["data"]) // 2, len(c["b"]["data"]) // 2, c["a"]["gate"], c["b"]["gate"], c["a"]["wlimit"], c["b"]["wlimit"],
         c["a"].get("wrap", 0), c["b"].get("wrap", 0))
@@ -326,7 +381,7 @@ def run(ctx, only_cases=None):
     try:
         pinfo = vlib.coq_properties("C12")
         vlib.proof_coverage(ctx, pinfo, "make -C coq Properties/C12.vo && coqc Properties/C12.v (Print Assumptions audit)",
-                            extra_obligations=7)   # the regenerated side conditions of Proofs/SideC12.v
+                            extra_obligations=8)   # the regenerated side conditions of Proofs/SideC12.v
     except vlib.Broken as b:
         broken = b
 
@@ -343,6 +398,8 @@ def run(ctx, only_cases=None):
         if thorough:
             cases += gen_tcp_reply_after_half_close(rng) + gen_tcp_reply_after_half_close(rng)
         cases += gen_udp_gate(rng, 210 if thorough else 42)
+        cases += gen_udp_real(rng, thorough)
+        cases += gen_vconn(rng, 200 if thorough else 28)
     outs = run_batch(binary, cases)
 
     # (iii) the property's predicate, evaluated by the harness on the real relays' own outputs
@@ -394,7 +451,9 @@ def run(ctx, only_cases=None):
     dist = {"rt": 0, "udp_raw_malformed": 0, "tcp": 0, "go_only_big": 0, "cut_mid_record": 0, "cut_on_boundary": 0, "not_cut": 0,
             "tunnel_end_error": 0, "end_with_last_chunk": 0, "udp_write_fault": 0, "zero_length_field_hit": 0,
             "tcp_gate": 0, "tcp_write_fault": 0, "tcp_read_error": 0, "udp_tunnel_gate": 0,
-            "tcp_gated_endpoint_wrap": {str(k): 0 for k in range(7)}, "udp_gated_tunnel_wrap": {str(k): 0 for k in range(7)}}
+            "tcp_gated_endpoint_wrap": {str(k): 0 for k in range(7)}, "udp_gated_tunnel_wrap": {str(k): 0 for k in range(7)},
+            "real_udpconn_batch_path": 0, "real_udpconn_records_per_case": [], "real_udpconn_retried": 0, "real_udpconn_skipped": 0,
+            "real_udpvirtualconn_slow_socket": 0}
     for c, o in zip(cases, outs):
         h = vlib.hashlib.sha256(json.dumps(c, sort_keys=True).encode()).hexdigest()
         distinct.add(h)
@@ -412,6 +471,17 @@ def run(ctx, only_cases=None):
             dist["tunnel_end_error"] += c["tunnel"].get("end", 0)
             dist["end_with_last_chunk"] += 1 if c["tunnel"].get("wd") else 0
             if u2.get("n_delivered", 0) >= 1 and c.get("cut", -1) >= 0:
+                nontrivial.add(h)
+        elif c["mode"] in ("udpreal", "vconn"):
+            r = o.get("r") or {}
+            if c["mode"] == "udpreal":
+                dist["real_udpconn_batch_path"] += 1
+                dist["real_udpconn_records_per_case"].append(r.get("n_delivered", 0))
+                dist["real_udpconn_retried"] += 1 if r.get("attempts", 1) > 1 else 0
+                dist["real_udpconn_skipped"] += 1 if r.get("skipped") else 0
+            else:
+                dist["real_udpvirtualconn_slow_socket"] += 1
+            if r.get("n_delivered", 0) >= 2:
                 nontrivial.add(h)
         elif c["mode"] == "udp":
             dist["udp_raw_malformed"] += 1
@@ -461,6 +531,12 @@ def run(ctx, only_cases=None):
         "the 20 ms ticker's timing and the sendmmsg batch writer (only used for *net.UDPConn) are not modelled; the ticker only "
         "moves tunnel write boundaries, which the encoder theorem quantifies over",
         "Bidirectional: one loop iteration / CloseWrite / wg.Done / Close is one atomic step (Threads.v); endpoints are scripts",
+        "ALIASING: the model's datagrams are values (theorem C12_udp_delivered_datagrams_are_values); the real loop hands the "
+        "local writer sub-slices of its re-assembly buffer, valid only until flush() returns, so the UDP side's Write must not "
+        "retain p (io.Writer contract). Checked on the real mapping.UDPVirtualConn (built by the adapter's getOrCreateSession) over "
+        "a gated slow socket whose sends are held until the relay has consumed the whole tunnel stream, and on a real *net.UDPConn",
+        "real *net.UDPConn cases use loopback UDP; a count/content failure is reported only if it repeats in 3 attempts (a kernel "
+        "drop would not); if no loopback socket can be opened the cases are counted as skipped",
         "endpoints are handed to the real relays through the real iocopy.NewReadWriteCloser[WithCloseWrite] in 5 configurations "
         "(plus a raw conn with / without CloseWrite); when the configuration makes the half-close invisible at the endpoint, the "
         "'reply after half-close' gate opens 5 ms after the peer endpoint reported its end (timing only decides how likely a broken "
